@@ -315,14 +315,14 @@ package pfcp
 //@     assert [seid] arg0 == s.LocalID && arg1 == urrid
 //@     assert [last] old(s.URRIDs[urrid].refPdrNum) == 1
 
+// urrsOK(s): what the emission of usage reports needs from a session (it also holds for a session just closed)
+//@ pred urrsOK(s *Sess) = s != nil && (forall u uint32 :: u in s.URRIDs ==> s.URRIDs[u] != nil)
+
 //@ func (s *Sess) URRSeq(urrid uint32) (seq uint32)
-//@   requires sessOK(s)
+//@   requires urrsOK(s)
 //@   ensures [known]   urrid in s.URRIDs ==> seq == old(s.URRIDs[urrid].SEQN) && s.URRIDs[urrid].SEQN == seq + 1
 //@   ensures [unknown] !(urrid in s.URRIDs) ==> seq == 0
-//@   ensures [ok]    sessOK(s)
-//@   ensures [frameok]  forall t *Sess :: old(allocated(t)) && old(sessOK(t)) && t != s && t.LocalID != s.LocalID ==> sessOK(t)
 //@   modifies s.URRIDs[urrid].SEQN
-//@   reveal sessOK
 //@   serves C11 C05 C07
 
 // A-PDRID: the PDR id the session layer computes from a Create/Update PDR IE (last decodable PDR-ID child) is the
@@ -394,6 +394,7 @@ package pfcp
 //@   ensures [others]    forall k RuleKey :: k.seid != s.LocalID ==> ((k in DP) == (k in old(DP)))
 //@   ensures [termr]     forall j int :: 0 <= j && j < len(usars) ==> usars[j].USARTrigger.Flags & report.USAR_TRIG_TERMR != 0
 //@   ensures [queues]    forall p uint16 :: p in s.q ==> closed(s.q[p])
+//@   ensures [urrs]      urrsOK(s) && (forall u uint32 :: (u in s.URRIDs) == (u in old(s.URRIDs))) && (forall u uint32 :: u in s.URRIDs ==> s.URRIDs[u] == old(s.URRIDs[u]) && s.URRIDs[u].SEQN == old(s.URRIDs[u].SEQN))
 //@   ensures [frameok]      forall t *Sess :: old(allocated(t)) && old(sessOK(t)) && t != s && t.LocalID != s.LocalID ==> sessOK(t)
 //@   modifies s.FARIDs[_], s.QERIDs[_], s.BARIDs[_], s.PDRIDs[_], s.URRIDs[_].removed, s.URRIDs[_].refPdrNum, DP, chans(s.q)
 //@   reveal sessOK
@@ -464,7 +465,7 @@ package pfcp
 
 //@ func (s *Sess) Pop(pdrid uint16) (pkt []byte, ok bool)
 //@   requires sessOK(s)
-//@   ensures [ok]     sessOK(s)
+//@   ensures [ok]     sessOK(s) && ownsMaps(s)
 //@   ensures [frameok]  forall t *Sess :: old(allocated(t)) && old(sessOK(t)) && t != s && t.LocalID != s.LocalID ==> sessOK(t)
 //@   ensures [absent] !(pdrid in s.q) ==> !ok && pkt == nil
 //@   ensures [headel] pdrid in s.q && old(len(s.q[pdrid])) != 0 ==> ok && pkt == old(chat(s.q[pdrid], chhead(s.q[pdrid]))) &&
@@ -491,6 +492,7 @@ package pfcp
 //@   ensures [del]    old(live(n, lSeid)) ==> err == nil
 //@   ensures [gone]   !live(n, lSeid)
 //@   ensures [sub]    forall k RuleKey :: (k in DP ==> k in old(DP)) && (k in CREATED ==> k in old(CREATED))
+//@   ensures [urrs]   old(live(n, lSeid)) ==> urrsOK(old(n.sess[lSeid-1])) && old(n.sess[lSeid-1]).RemoteID == old(n.sess[lSeid-1].RemoteID)
 //@   ensures [slots]  len(n.sess) == old(len(n.sess)) &&
 //@                    (forall i int :: 0 <= i && i < len(n.sess) ==> (uint64(i) + 1 != lSeid ==> n.sess[i] == old(n.sess[i])) && (uint64(i) + 1 == lSeid ==> n.sess[i] == nil))
 //@   ensures [others] forall id uint64 :: id != lSeid ==> (live(n, id) == old(live(n, id))) && (old(live(n, id)) ==> n.sess[id-1] == old(n.sess[id-1]))
@@ -527,7 +529,7 @@ package pfcp
 //@   ensures [id]     s.LocalID != 0 && (forall id uint64 :: id == s.LocalID ==> !old(live(n.local, id))) && live(n.local, s.LocalID) && n.local.sess[s.LocalID-1] == s
 //@   ensures [mine]   forall id uint64 :: id in n.sess <==> (id in old(n.sess) || id == s.LocalID)
 //@   ensures [others] forall id uint64 :: id != s.LocalID ==> (live(n.local, id) == old(live(n.local, id))) && (old(live(n.local, id)) ==> n.local.sess[id-1] == old(n.local.sess[id-1]))
-//@   ensures [ok]     sessOK(s)
+//@   ensures [ok]     sessOK(s) && ownsMaps(s)
 //@   ensures [frameok] forall t *Sess :: old(allocated(t)) && old(sessOK(t)) ==> sessOK(t)
 //@   ensures [wf]     lnodeWF(n.local) && dpLive(n.local)
 //@   modifies n.sess[_], n.local.sess, n.local.free, n.local.sess[_]
@@ -546,6 +548,7 @@ package pfcp
 //@   ensures [isol]    forall k RuleKey :: k.seid != lSeid ==> ((k in DP) == (k in old(DP))) && ((k in CREATED) == (k in old(CREATED)))
 //@   ensures [termr]   forall j int :: 0 <= j && j < len(usars) ==> usars[j].USARTrigger.Flags & report.USAR_TRIG_TERMR != 0
 //@   ensures [sub]     forall k RuleKey :: (k in DP ==> k in old(DP)) && (k in CREATED ==> k in old(CREATED))
+//@   ensures [urrs]    old(lSeid in n.sess) && old(live(n.local, lSeid)) ==> urrsOK(old(n.local.sess[lSeid-1]))
 //@   ensures [slots]   n.local == old(n.local) && len(n.local.sess) == old(len(n.local.sess)) &&
 //@                     (forall i int :: 0 <= i && i < len(n.local.sess) ==> (uint64(i) + 1 != lSeid ==> n.local.sess[i] == old(n.local.sess[i])) &&
 //@                        (uint64(i) + 1 == lSeid && old(lSeid in n.sess) ==> n.local.sess[i] == nil) &&
@@ -557,8 +560,11 @@ package pfcp
 //@            n.local.sess[lSeid-1].URRIDs[_].removed, n.local.sess[lSeid-1].URRIDs[_].refPdrNum, chans(n.local.sess[lSeid-1].q)
 //@   serves C01 C04 C05 C07 C12
 
-// allSessOK(n): every live session is well-formed (opaque sessOK); separation follows from ownership.
-//@ opaque pred allSessOK(n *LocalNode) = forall i int :: 0 <= i && i < len(n.sess) && n.sess[i] != nil ==> sessOK(n.sess[i])
+// ownsMaps(t): the session owns its maps (transparent copy of the ownership part of sessWF)
+//@ pred ownsMaps(t *Sess) = ownerOf(t.PDRIDs) == t && ownerOf(t.FARIDs) == t && ownerOf(t.QERIDs) == t && ownerOf(t.URRIDs) == t && ownerOf(t.BARIDs) == t && ownerOf(t.q) == t
+
+// allSessOK(n): every live session is well-formed (opaque sessOK) and owns its maps; separation follows from ownership.
+//@ opaque pred allSessOK(n *LocalNode) = forall i int :: 0 <= i && i < len(n.sess) && n.sess[i] != nil ==> sessOK(n.sess[i]) && ownsMaps(n.sess[i])
 
 //@ func (n *RemoteNode) Reset()
 //@   requires nodeWF(n) && lnodeWF(n.local) && allSessOK(n.local) && dpLive(n.local)
@@ -736,6 +742,9 @@ package pfcp
 // ---------------------------------------------------------------------------------------------
 // Server invariant and handlers (C01, C04, C05, C08, C11, C12)
 
+// the SEID a request addresses (Header.seid(): 0 unless the S flag is set)
+//@ pure func hdrSEID(h *message.Header) uint64 = ite(h.Flags & 1 != 0, h.SEID, uint64(0))
+
 //@ opaque pred nodesWF(s *PfcpServer) = forall id string :: id in s.rnodes ==> nodeWF(s.rnodes[id]) && s.rnodes[id].local == s.lnode && s.rnodes[id].ID == id
 //@ opaque pred linked(s *PfcpServer) = forall i int :: 0 <= i && i < len(s.lnode.sess) && s.lnode.sess[i] != nil ==>
 //@        nodeWF(s.lnode.sess[i].rnode) && s.lnode.sess[i].rnode.local == s.lnode && (uint64(i) + 1) in s.lnode.sess[i].rnode.sess
@@ -760,7 +769,7 @@ package pfcp
 //@   serves C05
 
 //@ func (s *PfcpServer) handleAssociationSetupRequest(req *message.AssociationSetupRequest, addr net.Addr)
-//@   requires srvInv(s) && req != nil && req.Header != nil && addr != nil
+//@   requires s != nil && srvInv(s) && req != nil && req.Header != nil && addr != nil
 //@   ensures [inv]      srvInv(s)
 //@   ensures [early]    (req.NodeID == nil || !ok(req.NodeID.NodeID())) ==> DP == old(DP) && (forall id uint64 :: live(s.lnode, id) == old(live(s.lnode, id)))
 //@   ensures [reset]    req.NodeID != nil && ok(req.NodeID.NodeID()) && old(val(req.NodeID.NodeID()) in s.rnodes) ==>
@@ -777,6 +786,8 @@ package pfcp
 //@   reveal linked
 //@   reveal lnodeWF
 //@   reveal allSessOK
+//@   flag perreturn
+//@   cases known: val(req.NodeID.NodeID()) in s.rnodes | unknown: !(val(req.NodeID.NodeID()) in s.rnodes)
 //@   serves C01 C04 C05 C08 C07
 //@   at call NewAssociationSetupResponse:
 //@     assert [seq]      arg0 == req.Header.SequenceNumber
@@ -784,3 +795,37 @@ package pfcp
 //@     assert [recovery] arg1[2] == ie.NewRecoveryTimeStamp(s.recoveryTime)
 //@   at call sendRspTo:
 //@     assert [to] arg1 == addr && arg0 == iface(rsp)
+
+//@ func (s *PfcpServer) handleSessionDeletionRequest(req *message.SessionDeletionRequest, addr net.Addr)
+//@   requires s != nil && srvInv(s) && req != nil && req.Header != nil
+//@   ensures [inv]    srvInv(s)
+//@   ensures [nf]     !old(live(s.lnode, hdrSEID(req.Header))) ==> DP == old(DP) && CREATED == old(CREATED) && (forall id uint64 :: live(s.lnode, id) == old(live(s.lnode, id)))
+//@   ensures [del]    old(live(s.lnode, hdrSEID(req.Header))) ==> !live(s.lnode, hdrSEID(req.Header)) && (forall k RuleKey :: k.seid == hdrSEID(req.Header) ==> !(k in DP))
+//@   ensures [others] forall id uint64 :: id != hdrSEID(req.Header) ==> (live(s.lnode, id) == old(live(s.lnode, id))) && (old(live(s.lnode, id)) ==> s.lnode.sess[id-1] == old(s.lnode.sess[id-1]))
+//@   ensures [isol]   forall k RuleKey :: k.seid != hdrSEID(req.Header) ==> ((k in DP) == (k in old(DP)))
+//@   modifies *
+//@   reveal allSessOK dpLive linked lnodeWF
+//@   flag perreturn
+//@   serves C01 C04 C05 C08 C11 C12 C07
+//@   loop range(usars):
+//@     modifies sess.URRIDs[_], whole(sess.URRIDs[_].SEQN), rsp.UsageReport, r.*
+//@     invariant [inv]   urrsOK(sess) && rsp != nil
+//@   after call DeleteSess:
+//@     assert [mine] old(lSeid in sess.rnode.sess) && sess.rnode.local == s.lnode
+//@     assert [l1] forall i int :: 0 <= i && i < len(s.lnode.sess) && s.lnode.sess[i] != nil ==> uint64(i) + 1 != lSeid && s.lnode.sess[i] == old(s.lnode.sess[i])
+//@     assert [l2] forall i int :: 0 <= i && i < len(s.lnode.sess) && s.lnode.sess[i] != nil ==> old(allocated(s.lnode.sess[i])) && old(sessOK(s.lnode.sess[i])) && s.lnode.sess[i].LocalID != lSeid
+//@     assert [lemma] allSessOK(s.lnode)
+//@     assert [l3] forall i int :: 0 <= i && i < len(s.lnode.sess) && s.lnode.sess[i] != nil ==> s.lnode.sess[i] != sess && s.lnode.sess[i].URRIDs != sess.URRIDs
+//@   at call NewSessionDeletionResponse#1:
+//@     assert [nfseid]  arg2 == 0 && arg3 == req.Header.SequenceNumber
+//@     assert [nfcause] len(arg5) == 2 && arg5[0] == ie.NewCause(ie.CauseSessionContextNotFound)
+//@   at call NewSessionDeletionResponse#2:
+//@     assert [seid]    arg2 == sess.RemoteID && arg3 == req.Header.SequenceNumber
+//@     assert [cause]   len(arg5) == 1 && arg5[0] == ie.NewCause(ie.CauseRequestAccepted)
+//@   at call sendRspTo:
+//@     assert [to] arg1 == addr && arg0 == iface(rsp)
+//@   at call URRSeq:
+//@     assert [known] ok
+//@   at call IEsWithinSessDelRsp:
+//@     assert [seqn]  recv.URSEQN + 1 == sess.URRIDs[recv.URRID].SEQN
+//@     assert [termr] recv.USARTrigger.Flags & report.USAR_TRIG_TERMR != 0
